@@ -98,7 +98,9 @@ ParseAce(plat, vmajor, toks0) ==
        LET wdt == IF AddrWidth(t2) > 0 THEN AddrWidth(t2) ELSE 1
            a == ParseAddr(Take(t2, wdt))
            rest == Drop(t2, wdt)
-       IN IF a.k = "bad" \/ ~AllWords(rest) \/ a.k = "group" THEN BadAce
+       IN IF a.k = "bad" \/ ~AllWords(rest) \/ a.k = "group"
+             \/ (rest # <<>> /\ rest[1].s \in {"any", "host", "object-group", "addrgroup"})      \* a second address: not a standard entry
+          THEN BadAce
           ELSE [ok |-> TRUE, typ |-> "standard", seq |-> seq, act |-> act, proto |-> 0,
                 src |-> a, dst |-> WildSpec(AnyW), sp |-> NoPort, dp |-> NoPort,
                 flags |-> NotIn(Words(rest), LogKeywords), logs |-> OnlyIn(Words(rest), LogKeywords),
